@@ -27,6 +27,13 @@ def run(tier, argv):
     rep.cov["exhaustive"] = True
     rep.cov["rule"] = ("every schema of the TLC-enumerated rule-free fragment (%d schema x configuration cases) against every enumerated document (%d), "
                        "verdict vector computed by Sem!AcceptsShape" % (nc, nd))
+    # corners: numeral spellings against integer / float examples, the empty property name
+    docsx, casesx, ndx, ncx = semcommon.generate(work, rep, "GenShapeX", "GenShapeX.cfg", None, "shapex")
+    sx, badx = semcommon.replay(work, hbin, docsx, casesx, "shapex")
+    rep.notes["corners"] = sx
+    bad += badx
+    for k in ("evaluations", "distinct_nontrivial", "traces_validated_against_impl"):
+        rep.cov[k] += sx["evaluations"]
     bad += semcommon.random_tier(work, rep, hbin, False, (500 if quick else 20000))
     for b in bad[:40]:
         rep.violation(b, "%s | doc %s | want %s got %s" % (b["schema"].replace("\n", "\\n")[:200], b.get("doc"), b["want"], json.dumps(b["got"])[:200]))
